@@ -29,6 +29,7 @@ import GM.Props.C05a
 import GM.Props.C02a
 import GM.Props.Blocks
 import GM.Props.Inlines
+import GM.Props.Attribute
 
 namespace GM.Props.C01
 open GM
@@ -98,5 +99,12 @@ theorem link_parser_contract : type_of% @GM.Props.Inlines.link_parser_keeps_cont
 theorem blockquote_process_total : type_of% @GM.Props.Blocks.blockquote_process_total_progress := @GM.Props.Blocks.blockquote_process_total_progress
 theorem paragraph_open_total : type_of% @GM.Props.Blocks.paragraph_open_total := @GM.Props.Blocks.paragraph_open_total
 theorem atx_open_total : type_of% @GM.Props.Blocks.atx_open_total := @GM.Props.Blocks.atx_open_total
+
+/-- The Attribute option: `parser.ParseAttributes` from every reader offset of every byte string, the last-line scan
+    `parseLastLineAttributes`, and ATX Open (+ Close of both heading parsers) with WithAttribute / WithAutoHeadingID
+    never panic and terminate (package `attribute`). -/
+theorem attribute_parser_total : type_of% @GM.Props.Attribute.parseAttributes_total := @GM.Props.Attribute.parseAttributes_total
+theorem attribute_last_line_total : type_of% @GM.Props.Attribute.lastLineAttrs_total := @GM.Props.Attribute.lastLineAttrs_total
+theorem attribute_heading_total : type_of% @GM.Props.Attribute.atx_heading_attrs_inv := @GM.Props.Attribute.atx_heading_attrs_inv
 
 end GM.Props.C01
